@@ -219,14 +219,14 @@ def load_fns(torch, res, notes):
 BOUNDARY_CH = [0, 1, 2, 3, 4, 5, 7, 8, 9, 15, 16, 17, 31, 32, 33, 47, 48, 49, 63, 64, 65, 95, 96, 97, 127, 128, 129, 130]
 
 
-def ch_values(quick, dense=True):
+def ch_values(quick, dense=True, frac=True):
     ints = (list(range(0, 131)) if dense else BOUNDARY_CH) + [255, 256, 257, 511, 512, 513]
     if quick:
         fr = [Fraction(c) + f for c in (0, 1, 2, 3, 4, 7, 8, 15, 16, 17, 31, 32, 33, 63, 64, 65, 127, 128, 129)
               for f in (Fraction(1, 4), Fraction(1, 2), Fraction(3, 4))]
     else:
         fr = [Fraction(n, 4) for n in range(1, 521) if n % 4]
-    return sorted(set(Fraction(x) for x in ints) | set(fr))
+    return sorted(set(Fraction(x) for x in ints) | (set(fr) if frac else set()))
 
 
 def bases_for(F, quick):
@@ -271,7 +271,7 @@ def sweeps_for(F, quick):
     os_ = [Fraction(x) for x in range(1, 34)]
     bits = [Fraction(x) for x in (0, 1, 2, 3, 4, 6, 8, 16)]
     for bi, b in enumerate(bases_for(F, quick)):
-        chs = ch_values(quick, dense=(bi == 0 or not quick))   # quick: every channel count through the first base point, tile boundaries +-1 through the others
+        chs = ch_values(quick, dense=(bi == 0 or not quick), frac=(bi <= 1 or not quick))   # quick: every channel count through the first base point, tile boundaries +-1 through the others
 
         def sw(var, vals, keys):
             envs = []
